@@ -147,7 +147,8 @@ Proof. exact src_ctor_ok. Qed.
 Print Assumptions source_constructor_is_model.
 
 (* smooth returns the computed window without casting it to the input's storage type, and
-   _normsq copies the points before rescaling them (literal statements of the source) *)
+   _normsq copies the points as float64 (`np.array(X, dtype=np.float64)`) before rescaling them
+   in place (literal statements of the source) *)
 Theorem source_keeps_float_output_and_copies_points :
   src_window_not_cast = true /\ src_normsq_copies_points = true.
 Proof. exact src_purity_ok. Qed.
